@@ -166,11 +166,13 @@ func genTripletSet(c *core.Chooser, distinct bool, big bool) []spec.Triplet {
 	var ts []spec.Triplet
 	for i := 0; i < n; i++ {
 		var tag uint16
-		switch c.Pick(3, 2, 2) {
+		switch c.Pick(3, 2, 2, 3) {
 		case 0:
 			tag = uint16(1 + c.Intn(18))
 		case 1:
 			tag = []uint16{0, 1, 2, 0x00ff, 0x0100, 0x0204, 0x0424, 0x1400, 0x7fff, 0x8000, 0xffff}[c.Intn(11)]
+		case 3:
+			tag = spec.StdTags[c.Intn(len(spec.StdTags))] // tags the standard defines: a parser may know them
 		default:
 			tag = uint16(c.Uint64())
 		}
@@ -183,7 +185,7 @@ func genTripletSet(c *core.Chooser, distinct bool, big bool) []spec.Triplet {
 			max = bigMax
 		}
 		l := c.Size(max, 0, 1, 255, 256, 65531, 65534)
-		ts = append(ts, spec.Triplet{Tag: tag, Val: c.Blob(l, "any")})
+		ts = append(ts, spec.Triplet{Tag: tag, Val: spec.EdgeValue(c, c.Blob(l, "any"))})
 	}
 	return ts
 }
@@ -297,6 +299,48 @@ func optRoundTrip(r *core.Run) {
 		r.Fail("C16", "roundtrip", "smgp.ReadOptions", "error", "parsing the container's own serialisation failed: %v", rd.Error())
 	} else if d := setDiff(want, optSet(b2)); d != "" {
 		r.Fail("C16", "roundtrip", "smgp.ReadOptions", "set", "parse(serialise(S)) != S: %s", d)
+	}
+	// the caller owns what a parser gave it: it overwrites every value it received, then the same octets are parsed
+	// again (by every entry point) and must still yield the set
+	scrib := func(vals [][]byte) {
+		for _, b := range vals {
+			for i := range b {
+				b[i] ^= 0xff
+			}
+		}
+	}
+	{
+		var vs [][]byte
+		a, _ := smpp.ReadTLVs(packet.NewPacketReader(append([]byte(nil), ser...)))
+		for _, v := range a {
+			vs = append(vs, v.Value())
+		}
+		for _, v := range smpp.ReadTLVs1(packet.NewPacketReader(append([]byte(nil), ser...))) {
+			vs = append(vs, v.Value())
+		}
+		o1, _ := smgp.ParseOptions(append([]byte(nil), oser...))
+		for _, v := range o1 {
+			vs = append(vs, v.Value())
+		}
+		for _, v := range smgp.ReadOptions(packet.NewPacketReader(append([]byte(nil), oser...))) {
+			vs = append(vs, v.Value())
+		}
+		scrib(vs)
+		r.Probe("parsed_values_overwritten_by_their_owner")
+		a2, _ := smpp.ReadTLVs(packet.NewPacketReader(append([]byte(nil), ser...)))
+		if d := setDiff(want, tlvSet(a2)); d != "" {
+			r.Fail("C16", "roundtrip", "smpp.ReadTLVs", "after-owner-wrote", "after the owner of earlier parse results overwrote them, parsing the same octets gives another set: %s", d)
+		}
+		if d := setDiff(want, tlvSet(smpp.ReadTLVs1(packet.NewPacketReader(append([]byte(nil), ser...))))); d != "" {
+			r.Fail("C16", "roundtrip", "smpp.ReadTLVs1", "after-owner-wrote", "after the owner of earlier parse results overwrote them, parsing the same octets gives another set: %s", d)
+		}
+		o2, _ := smgp.ParseOptions(append([]byte(nil), oser...))
+		if d := setDiff(want, optSet(o2)); d != "" {
+			r.Fail("C16", "roundtrip", "smgp.ParseOptions", "after-owner-wrote", "after the owner of earlier parse results overwrote them, parsing the same octets gives another set: %s", d)
+		}
+		if d := setDiff(want, optSet(smgp.ReadOptions(packet.NewPacketReader(append([]byte(nil), oser...))))); d != "" {
+			r.Fail("C16", "roundtrip", "smgp.ReadOptions", "after-owner-wrote", "after the owner of earlier parse results overwrote them, parsing the same octets gives another set: %s", d)
+		}
 	}
 	// the two images are kept while other containers are serialised and a PDU is encoded; parsing them afterwards
 	// must still yield the set (a serialisation is the caller's from the moment it is returned)
